@@ -253,7 +253,13 @@ impl StateMachine<'_> {
                 self.config,
             )
         } else if !self.config.color_only
-            && self.should_handle()
+            // Whether delta writes its own file header depends on the file style, not on the style
+            // of whatever state we happen to be in: for `diff -u` input this function also runs
+            // at the end of a hunk, and with a raw file style (e.g. --diff-highlight) it used to
+            // write a decorated header after the hunks of the file it belongs to.
+            && !(self.config.file_style.is_raw
+                && self.config.file_style.decoration_style
+                    == crate::style::DecorationStyle::NoDecoration)
             && self.handled_diff_header_header_line_file_pair != self.current_file_pair
         {
             self._handle_diff_header_header_line(self.source == Source::DiffUnified)?;
